@@ -125,6 +125,10 @@ class Shape(ast.NodeTransformer):
     def visit_Call(self, n):
         self.generic_visit(n)
         # getattr(x, 'name') with a literal identifier and no default is the attribute access x.name
+        # list(<list display or list comprehension>) is that (fresh) list
+        if isinstance(n.func, ast.Name) and n.func.id == 'list' and len(n.args) == 1 and not n.keywords and \
+                isinstance(n.args[0], (ast.ListComp, ast.List)):
+            return n.args[0]
         if isinstance(n.func, ast.Name) and n.func.id == 'getattr' and len(n.args) == 2 and not n.keywords and \
                 isinstance(n.args[1], ast.Constant) and isinstance(n.args[1].value, str) and n.args[1].value.isidentifier():
             return ast.copy_location(ast.Attribute(value=n.args[0], attr=n.args[1].value, ctx=ast.Load()), n)
@@ -641,6 +645,113 @@ def _leaks(tree, lp):
     return False
 
 
+def literal_dict_locals(tree):
+    """a local dict written as a literal (or as a dict comprehension over a literal tuple of constant keys) whose entries are
+    effect-free, and which is only ever used as  d['k'] (read), d.pop('k') (as a whole right-hand side) and f(.., **d), is dissolved:
+    each use becomes the entry's expression, `**d` the remaining entries as keywords. The entries build fresh values, so reading an
+    entry twice gives two equal values where the source shared one - only for entries that are list / dict displays or
+    comprehensions, which nothing can observe through the dict any more."""
+    import copy
+
+    class Sub(ast.NodeTransformer):
+        def __init__(self, m):
+            self.m = m
+
+        def visit_Name(self, n):
+            if n.id in self.m and isinstance(n.ctx, ast.Load):
+                return ast.copy_location(copy.deepcopy(self.m[n.id]), n)
+            return n
+    for fn in [x for x in ast.walk(tree) if isinstance(x, (ast.FunctionDef, ast.AsyncFunctionDef))]:
+        for blk in _own_blocks(fn):
+            i = 0
+            while i < len(blk):
+                st = blk[i]
+                i += 1
+                if not (isinstance(st, ast.Assign) and len(st.targets) == 1 and isinstance(st.targets[0], ast.Name)):
+                    continue
+                d = st.targets[0].id
+                v = st.value
+                if isinstance(v, ast.DictComp) and len(v.generators) == 1 and not v.generators[0].ifs and \
+                        isinstance(v.generators[0].target, ast.Name) and isinstance(v.generators[0].iter, (ast.Tuple, ast.List)) and \
+                        all(isinstance(e, ast.Constant) and isinstance(e.value, str) for e in v.generators[0].iter.elts) and \
+                        isinstance(v.key, ast.Name) and v.key.id == v.generators[0].target.id:
+                    t = v.generators[0].target.id
+                    v = ast.Dict(keys=[copy.deepcopy(e) for e in v.generators[0].iter.elts],
+                                 values=[Sub({t: e}).visit(copy.deepcopy(v.value)) for e in v.generators[0].iter.elts])
+                if not (isinstance(v, ast.Dict) and v.keys and all(isinstance(k, ast.Constant) and isinstance(k.value, str) for k in v.keys)):
+                    continue
+                if not all(effect_free(x) and isinstance(x, (ast.ListComp, ast.List, ast.Dict, ast.DictComp, ast.Constant, ast.Tuple)) for x in v.values):
+                    continue
+                if sum(1 for x in ast.walk(fn) if isinstance(x, ast.Name) and x.id == d and isinstance(x.ctx, ast.Store)) != 1:
+                    continue
+                # every use, in order, must be one of the three forms, in the statements that follow in this block
+                uses = [x for x in ast.walk(fn) if isinstance(x, ast.Name) and x.id == d and isinstance(x.ctx, ast.Load)]
+                entries = {k.value: val for k, val in zip(v.keys, v.values)}
+                plan = []
+                ok = True
+                seen = 0
+                for j in range(i, len(blk)):
+                    s2 = blk[j]
+                    here = [x for x in ast.walk(s2) if isinstance(x, ast.Name) and x.id == d and isinstance(x.ctx, ast.Load)]
+                    if not here:
+                        if not _effect_free_stmt(s2):
+                            # an effect between the literal and a later use: the entries would be evaluated after it
+                            if seen < len(uses):
+                                ok = False
+                                break
+                        continue
+                    seen += len(here)
+                    if len(here) != 1:
+                        ok = False
+                        break
+                    u = here[0]
+                    # pop as a whole right-hand side
+                    if isinstance(s2, ast.Assign) and isinstance(s2.value, ast.Call) and isinstance(s2.value.func, ast.Attribute) and \
+                            s2.value.func.value is u and s2.value.func.attr == 'pop' and len(s2.value.args) == 1 and \
+                            isinstance(s2.value.args[0], ast.Constant) and s2.value.args[0].value in entries:
+                        plan.append(('pop', s2, s2.value.args[0].value))
+                        continue
+                    subs = [x for x in ast.walk(s2) if isinstance(x, ast.Subscript) and x.value is u and isinstance(x.ctx, ast.Load) and
+                            isinstance(x.slice, ast.Constant)]
+                    if subs:
+                        plan.append(('get', s2, subs[0]))
+                        continue
+                    stars = [c for c in ast.walk(s2) if isinstance(c, ast.Call) and any(k.arg is None and k.value is u for k in c.keywords)]
+                    if stars and isinstance(s2, (ast.Return, ast.Assign, ast.Expr)) and s2.value is stars[0]:
+                        plan.append(('star', s2, stars[0]))
+                        continue
+                    ok = False
+                    break
+                if not ok or seen != len(uses) or not plan:
+                    continue
+                live = dict(entries)
+                for kind, s2, x in plan:
+                    if kind == 'pop':
+                        if x not in live:
+                            ok = False
+                            break
+                        s2.value = copy.deepcopy(live.pop(x))
+                    elif kind == 'get':
+                        if x.slice.value not in live:
+                            ok = False
+                            break
+                        new = copy.deepcopy(live[x.slice.value])
+                        for par in ast.walk(s2):
+                            for f_, val in ast.iter_fields(par):
+                                if val is x:
+                                    setattr(par, f_, new)
+                                elif isinstance(val, list) and any(y is x for y in val):
+                                    setattr(par, f_, [new if y is x else y for y in val])
+                    else:
+                        call = x
+                        call.keywords = [k for k in call.keywords if not (k.arg is None and isinstance(k.value, ast.Name) and k.value.id == d)] + \
+                            [ast.keyword(arg=k_, value=copy.deepcopy(val)) for k_, val in live.items()]
+                if ok:
+                    blk.remove(st)
+                    i -= 1
+    return tree
+
+
 def loops_to_comprehensions(tree):
     """X = [] ; for T in IT: [if C:] X.append(E)   ->   X = [E for T in IT if C]      (X not used in IT / C / E, nothing between
        the two statements mentions X);  D = {} ; for T in IT: [if C:] D[K] = V  ->  D = {K: V for T in IT if C}"""
@@ -738,6 +849,8 @@ def shape(tree, modname=None):
     tree = NNF().visit(tree)             # the nesting step creates new `not` tests
     tree = loops_to_comprehensions(tree)
     tree = merge_dict_stores(tree)
+    tree = literal_dict_locals(tree)
+    tree = Shape().visit(tree)          # getattr / f-strings over the constants written in
     return ast.fix_missing_locations(tree)
 
 
